@@ -1,9 +1,11 @@
 (* C11 (a): model of cvm::memory_stream (src/colvars_memstream.h, src/colvars_memstream.cpp).
    Definitions only.  Bytes are N (the model copies them verbatim and only interprets the
    8-byte little-endian length prefixes); every size_t sum/product is taken mod 2^64 explicitly.
-   The model mirrors the code that exists: write_vector advances the cursor by sizeof(T) after
-   the 8-byte length prefix, reads do not look at the previous error state, done_reading()
-   clears every error bit, has_remaining() subtracts unsigned. *)
+   The model mirrors the code that exists (with the two fix: commits of this slice: write_vector
+   advances the cursor by sizeof(size_t) after the length prefix; read_vector compares the number
+   of elements with (data_length_ - read_pos_) / sizeof(T) instead of multiplying first): reads do
+   not look at the previous error state, done_reading() clears every error bit, has_remaining()
+   subtracts unsigned. *)
 From Coq Require Import NArith List Bool.
 Import ListNotations.
 Open Scope N_scope.
@@ -85,12 +87,11 @@ Definition write_string (s : mstream) (chars : list byte) : mstream :=
   let '(s1, ok) := expand s (w64 (8 + n)) in
   if ok then put (put s1 (le64 n) 8) chars n else s1.
 
-(* template <typename T> void write_vector(std::vector<T> const &t), sizeof(T) = sz:
-   the cursor advances by sizeof(T), not sizeof(size_t), after the length prefix *)
+(* template <typename T> void write_vector(std::vector<T> const &t), sizeof(T) = sz *)
 Definition write_vector (s : mstream) (sz : N) (elems : list (list byte)) : mstream :=
   let n := blen elems in
   let '(s1, ok) := expand s (w64 (8 + w64 (sz * n))) in
-  if ok then put (put s1 (le64 n) sz) (concat elems) (w64 (n * sz)) else s1.
+  if ok then put (put s1 (le64 n) 8) (concat elems) (w64 (n * sz)) else s1.
 
 Definition set_state (s : mstream) (e f b : bool) : mstream :=
   mkMS (ms_buf s) (ms_len s) (ms_max s) e f b (ms_pos s) (ms_oob s).
@@ -137,8 +138,9 @@ Definition read_vector (s : mstream) (sz : N) : rres * mstream :=
   if has_remaining s0 8 then
     let '(lb, s1) := take s0 8 in
     let n := of_le lb in
-    if has_remaining s1 (w64 (n * sz)) then
-      if max_elems sz <? n then (RThrow n, s1)          (* t.resize(vector_length) throws *)
+    (* vector_length <= (data_length_ - read_pos_) / sizeof(T) *)
+    if n <=? wsub (ms_len s1) (ms_pos s1) / sz then
+      if max_elems sz <? n then (RThrow n, s1)          (* t.resize(vector_length) would throw *)
       else
         let '(v, s2) := take s1 (w64 (n * sz)) in
         (RVec (chunks (N.to_nat n) (N.to_nat sz) v), done_reading s2)
